@@ -177,6 +177,7 @@ pub fn fragment_cases() -> Vec<GCase> {
                     AField { name: "friend".into(), ty: ATy::named("Person"), dep: None },
                     AField { name: "friends".into(), ty: ATy::List(Box::new(ATy::NonNull(Box::new(ATy::named("Person"))))), dep: None },
                     AField { name: "pet".into(), ty: ATy::named("Animal"), dep: None },
+                    AField { name: "mate".into(), ty: ATy::named("Mate"), dep: None },
                 ],
                 ext_fields: vec![],
             },
@@ -190,6 +191,7 @@ pub fn fragment_cases() -> Vec<GCase> {
                 ],
                 ext_fields: vec![],
             },
+            AType::Union { name: "Mate".into(), members: vec!["Person".into(), "Animal".into()] },
             AType::Object { name: "Query".into(), implements: vec![], fields: vec![AField { name: "person".into(), ty: ATy::named("Person"), dep: None }, AField { name: "being".into(), ty: ATy::named("Being"), dep: None }], ext_fields: vec![] },
         ],
         query: Some("Query".into()),
@@ -289,6 +291,22 @@ pub fn fragment_cases() -> Vec<GCase> {
             vec![fr("PV2", "Person", vec![leaf("name"), f("pal", vec![ASel::Typename, sp("PV2"), ASel::Inline { on: "Person".into(), sub: vec![f("friend", vec![leaf("name")])] }])])],
             true,
         ),
+        // the closing spread is an immediate child of the selection on a UNION-typed (non-list) field
+        mk(
+            "union/self-variant-spread",
+            vec![f("person", vec![sp("PU")])],
+            vec![fr("PU", "Person", vec![leaf("name"), f("mate", vec![ASel::Typename, sp("PU"), ASel::Inline { on: "Animal".into(), sub: vec![leaf("name")] }])])],
+            true,
+        ),
+        mk(
+            "union/mutual",
+            vec![f("person", vec![sp("UA")])],
+            vec![
+                fr("UA", "Person", vec![leaf("name"), f("mate", vec![ASel::Typename, sp("UB")])]),
+                fr("UB", "Animal", vec![leaf("name"), f("owner", vec![sp("UA")])]),
+            ],
+            false,
+        ),
         // order inside one selection set: a LIST field with a sub-selection first, then the recursive spread next to it
         mk(
             "self/spread-after-list-field",
@@ -316,7 +334,7 @@ pub fn run(a: &Args) -> i32 {
     let mut rep = Report::new(
         "C12",
         a,
-        "directed graphs of input object types: all 625 edge-kind assignments of 2-node graphs (incl. self loops; edge kinds none / T / T! / [T] / [T!]!) sampled in the quick tier and complete in the thorough tier, random 3- and 4-node graphs, @oneOf nodes; plus 16 fragment recursion patterns (self / mutual 2 and 3 / through lists / through interface variants / only underneath an inline fragment / a non-recursive wrapper reaching the recursive fragment first / two wrappers sharing one cycle / flattened or aliased); every second case with skip_serializing_none; for each generated module: by-value containment graph of the emitted types acyclic (computed on the IR), rustc accepts it, nested recursive values round-trip; a case = one graph or pattern; non-trivial = the graph has a cycle",
+        "directed graphs of input object types: all 625 edge-kind assignments of 2-node graphs (incl. self loops; edge kinds none / T / T! / [T] / [T!]!) sampled in the quick tier and complete in the thorough tier, random 3- and 4-node graphs, @oneOf nodes; plus 18 fragment recursion patterns (self / mutual 2 and 3 / through lists / through interface variants / through a union-typed field / only underneath an inline fragment / a non-recursive wrapper reaching the recursive fragment first / two wrappers sharing one cycle / flattened or aliased); every second case with skip_serializing_none; for each generated module: by-value containment graph of the emitted types acyclic (computed on the IR), rustc accepts it, nested recursive values round-trip; a case = one graph or pattern; non-trivial = the graph has a cycle",
     );
     let mut rng = Rng::new(a.seed);
     let mut ctx = CaseCtx::new();
@@ -336,14 +354,16 @@ pub fn run(a: &Args) -> i32 {
         rng.shuffle(&mut all2);
         all2.truncate(90);
     }
-    for k in &all2 {
+    // a third of the graphs use type names that normalization rust changes (`node_a` becomes `NodeA`) and are generated
+    // under that normalization: the decision to box must not depend on which spelling of the name is looked up
+    for (i, k) in all2.iter().enumerate() {
         let one_of = [rng.chance(15), rng.chance(15)];
-        cases.push(input_graph_case(&["A", "B"], k, &one_of));
+        cases.push(input_graph_case(if i % 3 == 0 { &["node_a", "node_b"] } else { &["A", "B"] }, k, &one_of));
     }
     let n_rand = if rep.thorough() { 250 } else { 40 };
     for _ in 0..n_rand {
         let n = rng.range(3, 4);
-        let names: Vec<&str> = ["A", "B", "C", "D"][..n].to_vec();
+        let names: Vec<&str> = if rng.chance(33) { ["node_a", "node_b", "node_c", "node_d"][..n].to_vec() } else { ["A", "B", "C", "D"][..n].to_vec() };
         let kinds: Vec<Vec<&'static str>> = (0..n).map(|_| (0..n).map(|_| if rng.chance(55) { "-" } else { *rng.pick(&EDGE_KINDS[1..]) }).collect()).collect();
         let one_of: Vec<bool> = (0..n).map(|_| rng.chance(15)).collect();
         cases.push(input_graph_case(&names, &kinds, &one_of));
@@ -362,6 +382,10 @@ pub fn run(a: &Args) -> i32 {
         let mut opts = Opts::harness();
         // every second case runs with skip_serializing_none: a boxed member must be omitted like an unboxed one
         opts.skip_none = idx % 2 == 1;
+        if c.schema.get("node_a").is_some() {
+            opts.normalization_rust = true;
+            rep.count("normalization:rust-with-renamed-input-types");
+        }
         if c.no_serialize {
             opts.response_derives = Some("Debug,PartialEq".into());
         }
